@@ -124,7 +124,10 @@ func genC08(seed uint64, idx int) *plan {
 	p.n = 2 + r.intn(2)
 	p.thr = []int{0, 0, 0, 2, 3}[r.intn(5)]
 	const maxEpoch = 5
+	scripted := idx%3 == 0
+	forceFirst = scripted
 	p.u = newUniverse(r, 3, 1, 3, 3, maxEpoch)
+	forceFirst = false
 	// make tombstones and locks collide on few targets
 	nobj := len(p.u.objs)
 	epoch := 0
@@ -139,6 +142,24 @@ func genC08(seed uint64, idx int) *plan {
 		default:
 			data = append(data, i)
 		}
+	}
+	if scripted {
+		// the lock broadcast misses one shard (put failure or read-only), then a tombstone
+		// for the same object is attempted, then every shard runs a GC pass
+		sh := r.intn(p.n)
+		p.ops = append(p.ops, absOp{op: "put", i: 0})
+		if r.coin(1, 2) {
+			p.ops = append(p.ops, absOp{op: "fault", i: sh, a: 0, b: 1})
+		} else {
+			p.ops = append(p.ops, absOp{op: "mode", i: sh, a: 1})
+		}
+		p.ops = append(p.ops, absOp{op: "put", i: locks[0]}, absOp{op: "get", i: 0})
+		p.ops = append(p.ops, absOp{op: "fault", i: sh}, absOp{op: "mode", i: sh, a: 0})
+		p.ops = append(p.ops, absOp{op: "put", i: tss[0]}, absOp{op: "get", i: 0})
+		for s := 0; s < p.n; s++ {
+			p.ops = append(p.ops, absOp{op: "gcx", i: s})
+		}
+		p.ops = append(p.ops, absOp{op: "get", i: 0})
 	}
 	for k := 0; k < nops; k++ {
 		w := r.intn(100)
